@@ -28,6 +28,7 @@ lang_kernel!(c01_line_ending_u3, any_utf8, 3, 5, line_ending, r_line_ending);
 lang_kernel_total!(c01_ws_newline_a4, any_ascii, 4, 6, ws_newline, r_ws_newline);
 lang_kernel!(c01_ws_newlines_a4, any_ascii, 4, 6, ws_newlines, r_ws_newlines);
 lang_kernel!(c01_ws_comment_newline_a4, any_ascii, 4, 6, ws_comment_newline, r_ws_comment_newline);
+lang_kernel!(c01_ws_comment_newline_a3, any_ascii, 3, 5, ws_comment_newline, r_ws_comment_newline);
 
 #[kani::proof]
 #[kani::unwind(6)]
